@@ -1158,7 +1158,119 @@ func (e *specEnv) quant(n *EQuant) sval {
 			body = and(append(ranges, body)...)
 		}
 	}
+	// triggers: for every bound variable a smallest term (select G v) / (ea G (+ off v)) whose other arguments are ground;
+	// without them the solver's own choice made proofs over nested map/array rows unstable
+	var bnames []string
+	for _, qv := range n.Vars {
+		bnames = append(bnames, env.vars[qv.Name].t)
+	}
+	if pats := choosePatterns(body, bnames); pats != "" && n.Forall && autoPatterns {
+		return sval{t: "(" + q + " (" + strings.Join(binders, " ") + ") (! " + body + " " + pats + "))", typ: boolT}
+	}
 	return sval{t: "(" + q + " (" + strings.Join(binders, " ") + ") " + body + ")", typ: boolT}
+}
+
+// autoPatterns: explicit triggers made the operator-table proofs worse than the solvers' own choice; kept off
+var autoPatterns = false
+
+// choosePatterns returns ":pattern (...)" clauses: alternatives, each a multi-pattern covering all bound variables
+func choosePatterns(body string, bound []string) string {
+	nodes := parseSx(body)
+	if len(nodes) != 1 {
+		return ""
+	}
+	isBound := map[string]bool{}
+	for _, b := range bound {
+		isBound[b] = true
+	}
+	var mentions func(n *sx) map[string]bool
+	memo := map[*sx]map[string]bool{}
+	mentions = func(n *sx) map[string]bool {
+		if m, ok := memo[n]; ok {
+			return m
+		}
+		m := map[string]bool{}
+		if n.leaf {
+			if isBound[n.atom] {
+				m[n.atom] = true
+			}
+		} else {
+			for _, c := range n.list {
+				for k := range mentions(c) {
+					m[k] = true
+				}
+			}
+		}
+		memo[n] = m
+		return m
+	}
+	// candidate terms per bound variable
+	cands := map[string][]string{}
+	seen := map[string]bool{}
+	var walk func(n *sx, underQuant bool)
+	walk = func(n *sx, underQuant bool) {
+		if n.leaf {
+			return
+		}
+		if len(n.list) > 0 && n.list[0].leaf && (n.list[0].atom == "forall" || n.list[0].atom == "exists") {
+			return // do not take triggers from nested quantifiers (they mention inner bound variables)
+		}
+		if len(n.list) == 3 && n.list[0].leaf && n.list[0].atom == "select" {
+			// (select G v) with v a bound variable and G free of bound variables other than those already covered
+			if n.list[2].leaf && isBound[n.list[2].atom] {
+				t := n.String()
+				if !seen[t] {
+					seen[t] = true
+					for k := range mentions(n) {
+						cands[k] = append(cands[k], t)
+					}
+				}
+			}
+		}
+		if len(n.list) == 3 && n.list[0].leaf && n.list[0].atom == "ea" && len(mentions(n.list[1])) == 0 {
+			// (ea arr (+ off v))
+			idx := n.list[2]
+			if !idx.leaf && len(idx.list) == 3 && idx.list[0].atom == "+" && idx.list[2].leaf && isBound[idx.list[2].atom] && len(mentions(idx.list[1])) == 0 {
+				t := n.String()
+				if !seen[t] {
+					seen[t] = true
+					cands[idx.list[2].atom] = append(cands[idx.list[2].atom], t)
+				}
+			}
+		}
+		for _, c := range n.list {
+			walk(c, underQuant)
+		}
+	}
+	walk(nodes[0], false)
+	// a multi-pattern: for each bound variable the first candidate that mentions only bound variables of this quantifier
+	var parts []string
+	covered := map[string]bool{}
+	for _, b := range bound {
+		if covered[b] {
+			continue
+		}
+		if len(cands[b]) == 0 {
+			return ""
+		}
+		// prefer a candidate covering several variables
+		best := cands[b][0]
+		for _, c := range cands[b] {
+			if strings.Count(c, "?") > strings.Count(best, "?") {
+				best = c
+			}
+		}
+		parts = append(parts, best)
+		for _, o := range bound {
+			if strings.Contains(best, o) {
+				covered[o] = true
+			}
+		}
+	}
+	if len(parts) == 0 {
+		return ""
+	}
+	return ":pattern (" + strings.Join(parts, " ") + ")"
 }
 
 // lvalue: address and type of a memory location denoted by a spec expression
